@@ -486,7 +486,7 @@ class ReactionSystem(object):
 
         for rs in iter_rs:
             yes, no = rs.subset(_pred)
-            rsys += yes
+            rsys = rsys + yes  # a new instance: the first argument is left as it is
             skipped += no
         return rsys, skipped
 
